@@ -666,7 +666,7 @@ def gen_c02(tape, tier):
         opts['span_hosts_allow'] = ('linked-pages',)
     elif k == 4:
         opts['span_hosts_allow'] = ('page-requisites', 'linked-pages')
-    k = tape.draw(8, 'opt.hosts')
+    k = tape.draw(9, 'opt.hosts')
     if k == 1:
         opts['span_hosts'] = True
         opts['domains'] = ['site.test']
@@ -688,6 +688,10 @@ def gen_c02(tape, tier):
         opts['span_hosts'] = True
         opts['hostnames'] = ['site.test', 'other.test', 'third.test']
         opts['exclude_domains'] = ['third.test']
+    elif k == 8:
+        # the suffix form with a leading dot: sub-domains of a domain (a host 'www.other.test' is added to the site below)
+        opts['span_hosts'] = True
+        opts['exclude_domains'] = ['.other.test']
     elif k == 7:
         opts['span_hosts'] = True
         opts['domains'] = ['test']
@@ -733,6 +737,11 @@ def gen_c02(tape, tier):
                                                              start_in_subdir=opts['no_parent'] and not np_root,
                                                              main_port=8080 if np_ports else None)
     main = site.origins[0]
+    if opts.get('exclude_domains') == ['.other.test']:
+        www = site.add_origin('http', 'www.other.test')
+        wp = site.add(www, '/w.html', 'page')
+        starts[0].links.append((wp, wp.url))
+        pages.append(wp)
     if np_ports:
         # the start host on a port of its own, and its https twin on another: links that change the scheme stay on the same
         # site and stay under the directory rule, whatever the ports are
